@@ -71,10 +71,34 @@ def includes_done(coll):
     return False
 
 
-def covers(coll, item):
+HARMLESS_FILTERS = ('done', 'is_done', 'cancelled')
+
+
+def unfiltered(c, registry=None):
+    """a comprehension that only drops finished (or never created) tasks from its
+    base collection: returns (base, mapped-to-registry?) or None"""
+    if c[0] != 'comp' or len(c[3]) != 1:
+        return None
+    key, it, conds = c[3][0]
+    elem = T.mk(('elem', it, key))
+    if c[2] == elem:
+        for cd in conds:
+            if not (cd[:2] == ('unop', 'not') and cd[2][0] == 'mcall' and cd[2][1] == elem
+                    and cd[2][2] in HARMLESS_FILTERS):
+                return None
+        return it
+    return None
+
+
+def covers(coll, item, argof=None):
     """does collection term `coll` contain (all the tasks denoted by) `item`?"""
     if coll == item:
         return True
+    if argof and item[0] in ('wpend', 'apend') and item[1] in argof:
+        # everything pending after a wait was in the argument of that wait
+        base = unfiltered(coll) or coll
+        if base == argof[item[1]]:
+            return True
     for c in T.union_items(coll):
         if c[0] == 'when':
             # added under a path condition: the task it holds was created on that same path
@@ -84,6 +108,9 @@ def covers(coll, item):
         if c[0] == 'single' and c[1] == item:
             return True
         if c[0] == 'comp' and c[2] == item and not any(g[2] for g in c[3]):
+            return True
+        b = unfiltered(c)
+        if b is not None and covers(b, item, argof):
             return True
         if c[0] == 'call' and c[1] in ('list', 'set', 'tuple', 'BestSet', 'frozenset') and len(c[2]) == 1:
             if covers(c[2][0], item):
@@ -103,6 +130,37 @@ class RunModel(Analysis):
         self._seen = set()
         self.skipped = set()
 
+    # ------------------------------------------------- cancellation model
+    def cancel_edge(self, ip, node, st, fr, msg):
+        """R11.3: an enclosing scheduler cancels once and then waits without
+        bound, so an activation receives at most one CancelledError"""
+        if not self.gen_cancel or st.a('cdelivered'):
+            return []
+        return [(st.set(cdelivered=True).note(ip.where(node, fr), msg), None, ('Cancelled',))]
+
+    def registry_cover(self, x):
+        """[j.<registry> for j in self.jobs if <only drops never-started or finished>]"""
+        r = self.roles
+        x = x if x[0] == 'comp' else None
+        if x is None or len(x[3]) != 1:
+            return False
+        key, it, conds = x[3][0]
+        if it != T.mk(('attr', T.SELF, 'jobs')):
+            return False
+        elem = T.mk(('elem', it, key))
+        reg = T.mk(('attr', elem, r.registry_attr))
+        if x[2] != reg:
+            return False
+        from .rules.runrules import conj_items
+        for cd in conj_items(conds):
+            ok = cd in (reg, T.mk(('cmp', 'is not', reg, T.NONE)), T.mk(('mcall', elem, 'is_scheduled', (), ())),
+                        T.mk(('unop', 'not', ('mcall', elem, 'is_idle', (), ()))),
+                        T.mk(('unop', 'not', ('mcall', elem, 'is_done', (), ()))),
+                        T.mk(('unop', 'not', ('mcall', reg, 'done', (), ()))))
+            if not ok:
+                return False
+        return True
+
     # ------------------------------------------------------------- logging
     def ev(self, ip, kind, node, st, fr, **data):
         key = (kind, id(node), st.key(), tuple(sorted((k, v) for k, v in data.items()
@@ -119,7 +177,9 @@ class RunModel(Analysis):
     # ------------------------------------------------------------- inlining
     def want_inline(self, ip, func, fr):
         r = self.roles
-        if func is r.BROADCAST or func is r.RUN:
+        if func is r.RUN:
+            return self.inline_delegate
+        if func is r.BROADCAST:
             return False
         if func.parent is not None or func is r.wrap_factory:
             return True
@@ -207,7 +267,7 @@ class RunModel(Analysis):
         task = T.mk(('task', kind, job if job is not None else ('unk', 'job')))
         phase = st.a('phase', 'NoTasks')
         self.ev(ip, 'SPAWN', node, st, fr, tkind=kind, job=job, window=window, task=task, phase=phase,
-                coro=arg, nwait=st.a('nwait', 0), susp=st.a('susp', False), tf=st.a('tf'), cf=st.a('cf_flag'),
+                coro=arg, nwait=st.a('nwait', 0), susp=st.a('susp', False), gset=st.a('gset'), tf=st.a('tf'), cf=st.a('cf_flag'),
                 built=st.a('built', False), reg_reset=st.a('reg_reset', False),
                 ibase=next((c.base for c in reversed(ip.loopctx) if c.kind == 'for' and c.base is not None), None))
         if kind in ('run', 'bare'):
@@ -215,7 +275,7 @@ class RunModel(Analysis):
             st = st.set(live=live, phase='Live' if phase in ('NoTasks', 'Live') else phase,
                         nstart=min(2, st.a('nstart', 0) + 1))
         elif kind == 'shut':
-            st = st.set(shut_live=st.a('shut_live', frozenset()) | frozenset([task]))
+            st = st.set(shut_live=st.a('shut_live', frozenset()) | frozenset([task]), nshut=1)
         return (st.note(ip.where(node, fr), "task created for %s" % T.show(job, 3)), task)
 
     # -------------------------------------------------------------- cancel
@@ -294,12 +354,12 @@ class RunModel(Analysis):
             return self.await_all(ip, node, x, None, 'gather', st, fr)
         if t[0] == 'coro' and t[1] == r.BROADCAST.qualname:
             return self.shut(ip, node, t, st, fr)
-        if t[0] == 'coro' and t[1] == r.RUN.qualname and not self.inline_delegate:
+        if t[0] == 'coro' and t[1] == r.RUN.qualname and self.inline_delegate:
             self.ev(ip, 'DELEGATE', node, st, fr, coro=t)
-            out = []
-            if self.gen_cancel:
-                out.append((st.note(ip.where(node, fr), "CancelledError delivered while the inherited run is awaited"),
-                            None, ('Cancelled',)))
+            return None
+        if t[0] == 'coro' and t[1] == r.RUN.qualname:
+            self.ev(ip, 'DELEGATE', node, st, fr, coro=t)
+            out = self.cancel_edge(ip, node, st, fr, "CancelledError delivered while the inherited run is awaited")
             out.append((st.set(delegated=True), T.mk(('runresult',)), None))
             return out
         if t[0] == 'mcall' and t[2] in ('put', 'get') and self._is_queue(t[1]):
@@ -307,19 +367,15 @@ class RunModel(Analysis):
             out = []
             # T4: get() on a queue that holds this activation's own item does not suspend
             nonblocking = kind == 'REL' and st.a('slot', 'Free') == 'Held'
-            if self.gen_cancel and not nonblocking:
-                out.append((st.note(ip.where(node, fr), "CancelledError delivered at queue.%s" % t[2]),
-                            None, ('Cancelled',)))
+            if not nonblocking:
+                out += self.cancel_edge(ip, node, st, fr, "CancelledError delivered at queue.%s" % t[2])
             st2 = self.slot(ip, node, kind, t[1], st, fr, awaited=True)
             out.append((st2, ('unk', 'q'), None))
             return out
         if (t[0] == 'mcall' and t[2] == 'co_run') or (t[0] == 'coro' and self._is_member_corun(t)):
             job = t[1] if t[0] == 'mcall' else None
             self.ev(ip, 'BODY', node, st, fr, job=job, slot=st.a('slot', 'Free'))
-            out = []
-            if self.gen_cancel:
-                out.append((st.note(ip.where(node, fr), "CancelledError delivered inside the job body"),
-                            None, ('Cancelled',)))
+            out = self.cancel_edge(ip, node, st, fr, "CancelledError delivered inside the job body")
             if self.gen_bodyexc:
                 out.append((st.note(ip.where(node, fr), "the job body raises"), None, ('BodyExc',)))
             y = st.forget(lambda s: T.is_attr(s) or s[0] == 'mcall')
@@ -360,7 +416,7 @@ class RunModel(Analysis):
                                   return_when=rw)
         site = (node.lineno, node.col_offset)
         live = st.a('live', frozenset())
-        uncovered = [x for x in live if not covers(arg, x)]
+        uncovered = [x for x in live if not covers(arg, x, dict(st.a('argof', ())))]
         self.ev(ip, 'WAIT', node, st, fr, arg=arg, timeout=timeout, site=site, live=live,
                 uncovered=tuple(uncovered), phase=st.a('phase', 'NoTasks'))
         wd, wp = T.mk(('wdone', site)), T.mk(('wpend', site))
@@ -372,13 +428,13 @@ class RunModel(Analysis):
             self.ev(ip, 'LATEWAIT', node, st, fr, arg=arg, cause=c)
             y = y.set(live=frozenset([wp]), cause=c, susp=True)
         else:
+            ao = dict(st.a('argof', ()))
+            ao[site] = arg
+            y = y.set(argof=tuple(sorted(ao.items(), key=repr)))
             y = y.set(live=frozenset([wp]), susp=False, nwait=min(2, st.a('nwait', 0) + 1),
                       cancelled=frozenset(), cur_wait=site, incs=0, count_ok=None, cause=None)
         y = y.note(ip.where(node, fr), "asyncio.wait(FIRST_COMPLETED) returns (done, pending)")
-        out = []
-        if self.gen_cancel:
-            out.append((st.note(ip.where(node, fr), "CancelledError delivered at the main wait"),
-                        None, ('Cancelled',)))
+        out = self.cancel_edge(ip, node, st, fr, "CancelledError delivered at the main wait")
         out.append((y, T.mk(('tuple', (wd, wp))), None))
         return out
 
@@ -417,15 +473,13 @@ class RunModel(Analysis):
         phase = st.a('phase', 'NoTasks')
         bounded = timeout is not None and timeout != T.NONE
         fin = self.finished_only(x)
-        covers_live = bool(live) and all(covers(x, i) for i in live)
-        covers_shut = bool(shut_live) and all(covers(x, i) for i in shut_live)
+        argof = dict(st.a('argof', ()))
+        covers_live = bool(live) and (all(covers(x, i, argof) for i in live) or self.registry_cover(x))
+        covers_shut = bool(shut_live) and all(covers(x, i, argof) for i in shut_live)
         self.ev(ip, 'AWAIT_ALL', node, st, fr, coll=x, timeout=timeout, how=how, cancelled=cancelled,
                 phase=phase, finished_only=fin, covers_live=covers_live, covers_shut=covers_shut,
                 bounded=bounded, return_when=return_when, live=live, shut_live=shut_live)
-        out = []
-        if self.gen_cancel:
-            out.append((st.note(ip.where(node, fr), "CancelledError delivered while awaiting %s" % T.show(x, 3)),
-                        None, ('Cancelled',)))
+        out = self.cancel_edge(ip, node, st, fr, "CancelledError delivered while awaiting %s" % T.show(x, 3))
         y = st.forget(lambda s: T.is_attr(s) or s[0] == 'mcall')
         y = y.set(susp=True)
         res = ('awaited', ('call', 'asyncio.' + how, (x,), ()))
@@ -434,6 +488,9 @@ class RunModel(Analysis):
             wd, wp = T.mk(('adone', site)), T.mk(('apend', site))
             res = ('tuple', (wd, wp))
             y = y.forget(lambda s: s == wd or s == wp)
+            ao = dict(st.a('argof', ()))
+            ao[site] = x
+            y = y.set(argof=tuple(sorted(ao.items(), key=repr)))
         if cancelled and not bounded:
             # TIDY(x)
             if covers_live:
@@ -442,7 +499,7 @@ class RunModel(Analysis):
                 y = y.note(ip.where(node, fr), "tidy: all live job tasks cancelled and awaited")
                 self.ev(ip, 'TIDY', node, st, fr, coll=x, what='jobs', phase=phase)
             elif covers_shut:
-                y = y.set(shut_live=frozenset())
+                y = y.set(shut_live=frozenset(), shut_tidied=True)
                 self.ev(ip, 'TIDY', node, st, fr, coll=x, what='shutdown', phase=phase)
             elif live and not fin and how == 'wait' or (live and T.mentions(x, is_wpend)):
                 self.ev(ip, 'TIDY_PARTIAL', node, st, fr, coll=x, live=live, phase=phase)
@@ -453,16 +510,20 @@ class RunModel(Analysis):
             y = y.set(shut_live=frozenset([wp]), shut_waited=True)
         elif covers_shut and not bounded:
             y = y.set(shut_live=frozenset(), shut_waited=True)
+        if how == 'wait' and not bounded and not cancelled:
+            # T1: without a timeout (and waiting for all) nothing is left pending
+            rw = return_when
+            if rw is None or (rw[0] == 'mod' and rw[1].endswith('ALL_COMPLETED')):
+                y2 = y.assume(wp, False)
+                if y2 is not None:
+                    y = y2
         out.append((y, T.mk(res), None))
         return out
 
     def shut(self, ip, node, t, st, fr):
         phase = st.a('phase', 'NoTasks')
         self.ev(ip, 'SHUT', node, st, fr, phase=phase, live=st.a('live', frozenset()))
-        out = []
-        if self.gen_cancel:
-            out.append((st.note(ip.where(node, fr), "CancelledError delivered during the shutdown broadcast"),
-                        None, ('Cancelled',)))
+        out = self.cancel_edge(ip, node, st, fr, "CancelledError delivered during the shutdown broadcast")
         y = st.forget(lambda s: T.is_attr(s) or s[0] == 'mcall')
         if st.a('cause') is None:
             y = y.set(cause=self.cause_of(st))
@@ -480,16 +541,26 @@ class RunModel(Analysis):
             self.ev(ip, 'COUNTCMP', node, st, fr, term=term, val=val)
             if val:
                 st = st.set(count_ok=term)
+        g = self.roles.guard_attr
+        if g and term == T.mk(('attr', T.SELF, g)) and not val:
+            st = st.set(gtested=True)
         if not val:
+            # a collection known to be empty holds no unfinished task
+            argof = dict(st.a('argof', ()))
             live = st.a('live', frozenset())
-            if term in live:
-                live = live - frozenset([term])
+            gone = frozenset(i for i in live if covers(term, i, argof))
+            if live and self.registry_cover(term):
+                # the registry holds every started task (the start stores it synchronously)
+                gone = live
+            if gone:
+                live = live - gone
                 ph = st.a('phase', 'NoTasks')
                 st = st.set(live=live, phase='Tidied' if (not live and ph == 'Live') else ph)
                 st = st.note(ip.where(node, fr), "%s is empty: nothing left to tidy" % T.show(term, 3))
             sl = st.a('shut_live', frozenset())
-            if term in sl:
-                st = st.set(shut_live=sl - frozenset([term]))
+            gone = frozenset(i for i in sl if covers(term, i, argof))
+            if gone:
+                st = st.set(shut_live=sl - gone)
         return st
 
     def on_suspend(self, ip, node, term, st, fr):
@@ -518,6 +589,8 @@ class RunModel(Analysis):
             upd['cf_flag'] = 'unset' if val == T.FALSE else 'set'
         if attr == r.reverse_attr:
             upd['built'] = True
+        if obj == T.SELF and attr == r.guard_attr and r.guard_attr:
+            upd['gset'] = (val == T.TRUE)
         if attr == r.registry_attr and val == T.NONE:
             upd['reg_reset'] = True
         if upd:
@@ -536,6 +609,7 @@ class RunModel(Analysis):
         if st.a('cause') is None:
             st = st.set(cause=self.cause_of(st))
         self.ev(ip, 'RET', node, st, fr, val=val, phase=st.a('phase', 'NoTasks'), cause=st.a('cause'),
+                shut_tidied=st.a('shut_tidied', False), gset=st.a('gset'), spawned_shut=st.a('nshut', 0),
                 tf=st.a('tf'), cf=st.a('cf_flag'),
                 live=st.a('live', frozenset()), shut_live=st.a('shut_live', frozenset()),
                 slot=st.a('slot', 'Free'))
